@@ -48,8 +48,132 @@ func split2(lines []string) (out, errl []string) {
 	return
 }
 
+// runs compresses "out A I" lines into "A:first-last" runs of consecutive indices (per attempt)
+func runs(lines []string, stream string) string {
+	out := []string{}
+	curA, first, last := "", -1, -1
+	flush := func() {
+		if first >= 0 {
+			out = append(out, fmt.Sprintf("%s:%d-%d", curA, first, last))
+		}
+		first = -1
+	}
+	for _, l := range lines {
+		f := strings.Fields(l)
+		if len(f) != 3 || f[0] != stream {
+			if strings.TrimSpace(l) == "" {
+				continue
+			}
+			flush()
+			out = append(out, "?"+strings.ReplaceAll(l, " ", "_"))
+			continue
+		}
+		i, err := strconv.Atoi(f[2])
+		if err != nil {
+			flush()
+			out = append(out, "?"+strings.ReplaceAll(l, " ", "_"))
+			continue
+		}
+		if first >= 0 && f[1] == curA && i == last+1 {
+			last = i
+			continue
+		}
+		flush()
+		curA, first, last = f[1], i, i
+	}
+	flush()
+	return "[" + strings.Join(out, ",") + "]"
+}
+
+// stopped: a process that is stopped by a request and still writes while it goes down (its TERM
+// handler prints a burst): everything it wrote before it exited has to be in its log.
+//
+//	lfs <lines before the stop> <lines printed by the TERM handler>
+func (c *logfileC) stopped(n, burst int) string {
+	zerolog.SetGlobalLevel(zerolog.InfoLevel)
+	zlog.Logger = zerolog.New(io.Discard)
+	defer zerolog.SetGlobalLevel(zerolog.Disabled)
+	verif.Reset(false, false)
+	app.VerifCommander = nil
+	app.VerifStopCtx = nil
+	app.VerifStopCtxOf = nil
+	app.VerifBackoff = nil
+	dir, _ := os.MkdirTemp("", "pclogstop")
+	defer os.RemoveAll(dir)
+	logf := filepath.Join(dir, "p.log")
+	up := filepath.Join(dir, "up")
+	// the handler writes its lines in large chunks (faster than the supervisor reads them), so that
+	// there is unread output in the pipes when the shell exits
+	script := fmt.Sprintf(`trap 'seq 1 %[1]d | sed "s/^/out 2 /"; seq 1 %[1]d | sed "s/^/err 2 /" 1>&2; exit 0' TERM; i=1; while [ $i -le %[2]d ]; do echo "out 1 $i"; echo "err 1 $i" 1>&2; i=$((i+1)); done; touch %[3]s; while true; do sleep 0.05; done`,
+		burst, n, up)
+	pc := types.ProcessConfig{Name: "p", ReplicaName: "p", Command: script, Executable: "sh", Args: []string{"-c", script},
+		Namespace: "default", Replicas: 1, LogLocation: logf}
+	pc.RestartPolicy.Restart = "no"
+	prj := &types.Project{Processes: types.Processes{"p": pc}, LogLength: 2*(n+burst) + 1000, ShellConfig: command.DefaultShellConfig()}
+	r, err := app.NewProjectRunner((&app.ProjectOpts{}).WithProject(prj).WithIsTuiOn(true))
+	if err != nil {
+		return "runner-error"
+	}
+	done := make(chan struct{})
+	go func() { _ = r.Run(); close(done) }()
+	deadline := time.Now().Add(10 * time.Second)
+	for {
+		if _, err := os.Stat(up); err == nil {
+			break
+		}
+		if time.Now().After(deadline) {
+			_ = r.ShutDownProject()
+			return "not-up"
+		}
+		time.Sleep(5 * time.Millisecond)
+	}
+	_ = r.StopProcess("p")
+	select {
+	case <-done:
+	case <-time.After(30 * time.Second):
+		_ = r.ShutDownProject()
+		return "run-did-not-return"
+	}
+	mem, _ := r.GetProcessLog("p", 10000000, 0)
+	var flines []string
+	if f, err := os.Open(logf); err == nil {
+		sc := bufio.NewScanner(f)
+		sc.Buffer(make([]byte, 1<<20), 1<<20)
+		for sc.Scan() {
+			var m map[string]any
+			if json.Unmarshal(sc.Bytes(), &m) == nil {
+				if s, ok := m["message"].(string); ok {
+					flines = append(flines, s)
+				}
+			}
+		}
+		f.Close()
+	} else {
+		flines = []string{"NO-FILE"}
+	}
+	pick := func(lines []string, stream string) []string {
+		o := []string{}
+		for _, l := range lines {
+			if strings.HasPrefix(l, stream+" ") {
+				o = append(o, l)
+			}
+		}
+		return o
+	}
+	return fmt.Sprintf("mem_out=%s mem_err=%s file_out=%s file_err=%s", runs(pick(mem, "out"), "out"), runs(pick(mem, "err"), "err"),
+		runs(pick(flines, "out"), "out"), runs(pick(flines, "err"), "err"))
+}
+
 func (c *logfileC) Exec(op string) string {
 	w := strings.Fields(op)
+	if len(w) == 3 && w[0] == "lfs" {
+		n, e1 := strconv.Atoi(w[1])
+		b, e2 := strconv.Atoi(w[2])
+		if e1 != nil || e2 != nil || n < 1 || b < 1 {
+			return "bad-op"
+		}
+		return Safe(func() string { return c.stopped(n, b) })
+	}
 	if len(w) != 7 || w[0] != "lf" {
 		return "bad-op"
 	}
@@ -161,4 +285,7 @@ func (c *logfileC) Gen(r *rand.Rand, tier string, emit func(string)) {
 		mx := 1 + r.Intn(3)
 		emit(fmt.Sprintf("lf %s %d %s %d %d %d", pols[r.Intn(len(pols))], mx, strings.Join(codes, ","), 1+r.Intn(4), r.Intn(2), []int{1000, 1000, 5}[r.Intn(3)]))
 	}
+	// a process that is stopped and still writes while it goes down
+	emit(fmt.Sprintf("lfs %d %d", 1+r.Intn(5), 3+r.Intn(5)))
+	emit(fmt.Sprintf("lfs %d %d", 1+r.Intn(5), 20000+r.Intn(5000)))
 }
